@@ -94,15 +94,15 @@ Proof.
       * destruct (in_rng 224 239 b).
         { destruct r as [|c1 [|c2 r2]]; try discriminate.
           apply andb_true_iff in H as [H12 H3]. apply andb_true_iff in H12 as [H1 H2].
-          assert (128 <= c1) by (destruct (b =? 224); [|destruct (b =? 237)]; unfold is_cont, in_rng in H1; lia).
-          rewrite (aa_ok_cons_hi c1 _ H0), (aa_ok_cons_hi c2 _ (is_cont_ge _ H2)).
+          assert (Hc1 : 128 <= c1) by (destruct (b =? 224); [|destruct (b =? 237)]; unfold is_cont, in_rng in H1; lia).
+          rewrite (aa_ok_cons_hi c1 _ Hc1), (aa_ok_cons_hi c2 _ (is_cont_ge _ H2)).
           apply IH; [cbn [length] in Hl; lia|exact H3]. }
         { destruct (in_rng 240 244 b); [|discriminate].
           destruct r as [|c1 [|c2 [|c3 r3]]]; try discriminate.
           apply andb_true_iff in H as [H123 H4]. apply andb_true_iff in H123 as [H12 H3].
           apply andb_true_iff in H12 as [H1 H2].
-          assert (128 <= c1) by (destruct (b =? 240); [|destruct (b =? 244)]; unfold is_cont, in_rng in H1; lia).
-          rewrite (aa_ok_cons_hi c1 _ H0), (aa_ok_cons_hi c2 _ (is_cont_ge _ H2)), (aa_ok_cons_hi c3 _ (is_cont_ge _ H3)).
+          assert (Hc1 : 128 <= c1) by (destruct (b =? 240); [|destruct (b =? 244)]; unfold is_cont, in_rng in H1; lia).
+          rewrite (aa_ok_cons_hi c1 _ Hc1), (aa_ok_cons_hi c2 _ (is_cont_ge _ H2)), (aa_ok_cons_hi c3 _ (is_cont_ge _ H3)).
           apply IH; [cbn [length] in Hl; lia|exact H4]. }
 Qed.
 Lemma utf8_valid_aa_ok s : utf8_valid s = true -> aa_ok s = true.
